@@ -22,6 +22,9 @@ CHECKS = {
    text="TLC checks Validation on every transition (monotone; grows only by the sender of an accepted request/indication/delivered response; drops never validate). Replay and trace validation compare is_validated_peer for every address of the universe (incl. the local address and destinations) after every call."),
  "C18": dict(cat="model_checking", ref="3.1, 5/C18", tech=AGENT_TECH, note=AGENT_NOTE,
    text="TLC checks that every Transmit reply carries the payload and destination recorded at send time (ghost computed from events only). The adapter serialises each builder itself before send and compares every transmission (initial and retransmissions) byte for byte, plus from/to/transport and peer_address while outstanding; indications and responses leave the state unchanged."),
+ "C14": dict(cat="model_checking", ref="3.3, 5/C14", tech="TLA+ model checking (TLC) of TcpFraming/MCTcpFraming + replay of every LTS edge into the real TcpBuffer + TLC trace validation of recorded runs with real frame sizes",
+   note="Trusted: TLC, the Rust adapter, the python label matcher. Exhaustive for streams of <= 8 (thorough 11) bytes with frame lengths 0..2; lengths up to 65535 are sampled by trace validation.",
+   text="TLC checks on all frame sequences x all chunkings x all push/pull interleavings that the pulled frames are a prefix of the sent frames (none lost, duplicated, merged, reordered, altered), that no byte is lost or invented, that pull answers nothing exactly when no complete frame is buffered and then leaves the buffer intact, and that everything is delivered once pushed. Every edge of the dumped LTS is executed on the real TcpBuffer; random frame sequences with lengths from {0,1,2,253..258,65534,65535,...} and random chunking (1-byte chunks, multi-frame chunks) are recorded and validated by TLC with the same invariants."),
  "C20": dict(cat="model_checking", ref="3.2, 5/C20", tech="TLA+ self-composition (StunAgentShift) checked by TLC + replay of identical LTS scripts under shifted base instants, another thread and decoy agents", note=AGENT_NOTE + " Ambient state other than the clock, thread and other agents is not varied.",
    text="TLC checks on the two-copy product that the same history shifted by D gives the same state and replies shifted by D, that the same poll choices are open, and that an instant passed for one transaction never changes another's record. Every LTS script is executed at base T0, T0+10^9 ms, on a spawned thread and interleaved with decoy agents (base 10^6 s away from the real clock, so a stray Instant::now() cannot agree); all runs must conform to the same LTS and, where no poll choice was open, agree event for event."),
 }
